@@ -1,9 +1,17 @@
 prop(
     "C09",
     quick=[("native", 12), ("miri", 4)],
-    thorough=[("native", 16), ("asan", 8), ("miri", 4)],
+    thorough=[("native", 16), ("asan", 8), ("miri", 4), ("fuzz", 16)],
     level="exploration",
     min_evals={"quick": 150_000, "thorough": 3_500_000},
+    # configuration of the `fuzz` stage (driver side: run_fuzz_stage in ../../check, target: harness/fuzz/fuzz_targets/c09_rrdp.rs)
+    fuzz={
+        "seconds": 120,
+        "max_len": 16384,
+        "targets": [
+            {"name": "c09_rrdp", "group": "rrdp"},
+        ],
+    },
     rule=(
         "Five generated workloads, each decided by an oracle written from the statement. "
         "(1) Round trips: model values of the three file kinds (nil/max/random session ids, serials over 0..u64::MAX with boundaries, "
@@ -33,7 +41,12 @@ prop(
         "truncation point of one document per kind), random bytes and large finite hostile documents (10^6 attributes, 2x10^5 "
         "nested elements, entity-expansion DOCTYPE): no panic; every accepted value must survive write_xml/parse; signature "
         "(kind, mutator, outcome class). Foreign valid documents in many legal spellings are parsed and what happens is recorded "
-        "(observation only). evaluations counts single parses / model comparisons."
+        "(observation only). evaluations counts single parses / model comparisons. "
+        "(6) Fuzz stage (thorough): coverage-guided libFuzzer executions of target c09_rrdp; input octet 0 selects the file kind, the parser (NotificationFile::parse / "
+        "parse_limited, Snapshot::parse / Delta::parse or the harness' collecting ProcessSnapshot / ProcessDelta) and the reader chunking (slice, or BufReader of 1/2/5/16/4096 "
+        "octets over a dribbling reader), the rest (up to 16 KiB) is the document; judged by the same function as the mutants of (5): no panic, and a value the owned parser "
+        "accepts must survive write_xml followed by a parse to an equal value. Seeded with ~360 small generated files in the library's and in foreign spellings; "
+        "executions are counted as evaluations, not as signatures."
     ),
     assumptions=[
         "the per-element limits are the two numbers exported by hook H2 (rpki::rrdp::VERIF_LIMITS); header limit applies to every element of a notification file and to the root element of snapshot/delta files, file limit to the children and content of snapshot/delta files (as configured by the calls to start_with_limit / take_opt_element_with_limit)",
@@ -48,12 +61,13 @@ prop(
         "documents; the oracles (value model, byte-count bound from the statement with limits read through hook H2, delta-chain and origin "
         "models) are independent of the code under test. Endless streams cannot be held in a test file and their bound is a logical counter, "
         "which is exactly what a counting reader under the parser observes. Miri repeats round trips, small-document parsing, the models and "
-        "one header-limit stream; ASan repeats a reduced version of everything including two 100 MB streams."
+        "one header-limit stream; ASan repeats a reduced version of everything including two 100 MB streams. The thorough tier ends with 2 minutes of "
+        "coverage-guided libFuzzer (16 forks, ASan build) on the three parsers and the two processors with the no-panic and accepted-value-round-trips oracle."
     ),
     level_note=(
         "Sampled, not exhaustive: held on the explored cases only. The byte bound is checked for 25 hostile shapes at the element positions "
         "of small prefix documents, not for every conceivable token; memory is bounded only loosely (4x)."
     ),
-    technique="runtime oracles + counting reader under unbounded hostile generators + counting allocator; Miri and ASan stages",
+    technique="runtime oracles + counting reader under unbounded hostile generators + counting allocator; Miri and ASan stages; libFuzzer on the parsers",
     design_ref="DESIGN.md §4 C09, §5 H2",
 )
